@@ -24,7 +24,7 @@ from mpf.core.utility_functions import Util  # noqa: E402
 VALUES = [None, True, False, 0, 1, -1, 2 ** 40, 0.5, -0.5, 255, 256, "", " ", "abc", "1", "1.5", "0x1F", "10ms", "2s",
           "none", "None", "a, b", "d1", "nodevice", [], [1], ["a", "b"], {}, {"a": 1}, [[1], {"b": 2}],
           {"a": {"b": [1]}}, "{machine.a}", "(token)", "nan", "inf", float("nan"), "yes", "on", "red", "ff0000",
-          "1,2,3", "300,0,0", 4, 3, "4", 1e-7]
+          "1,2,3", "300,0,0", 4, 3, "4", 1e-7, {"zz_unknown_key": 1}, [{"zz_unknown_key": 1}]]
 
 
 def in_range(v, param):
@@ -95,7 +95,19 @@ class Typer:
         if name == "gain":
             return v is None or isinstance(v, float)
         if name == "subconfig":
-            return isinstance(v, dict)
+            if not isinstance(v, dict):
+                return False
+            # no unknown key survives inside a nested sub-config either
+            spec = self.machine.config_validator.get_config_spec()
+            allowed = set()
+            open_spec = False
+            for part in param.split(","):
+                sub = spec
+                for seg in part.split(":"):
+                    sub = sub.get(seg, {}) if isinstance(sub, dict) else {}
+                allowed |= set(sub)
+                open_spec = open_spec or "__allow_others__" in sub
+            return open_spec or all(k in allowed or str(k).startswith("_") for k in v)
         if name == "enum":
             vals = param.lower().split(",")
             return (v is None and "none" in vals) or (isinstance(v, str) and v in vals)
